@@ -48,7 +48,7 @@ CHECKS = {
 SCHED_NOTE = 'Trusted: TLC; the scheduler serialises instrumented operations (atomics of the cfg-gated shim, protocol hooks, harness call/return markers) and code between them runs freely; schedules are sampled (seeded random with role starvation), not exhaustive; timeouts are real time.'
 CHECKS.update({
  'C06': dict(design='4/C06', technique='TLA+ property monitors (NucleoTrace.tla) validated by TLC over scheduler-controlled executions of the real Nucleo',
-   text="The real Nucleo (UI thread, 0-3 injector threads, 1-4 pool threads, 1-2 columns) runs scenario scripts of reparse / tick(timeout) / restart / push / extend under a controlled scheduler that decides the order of every atomic operation and protocol hook (cfg-gated yield points), so writers are held between index reservation and publication and runs are interleaved with cancellations and rescoring. After every tick the whole snapshot projection is logged (count, pattern, every match with its item read through the safe accessor). TLC consumes each trace with the monitor spec: every match initialised, injected, unique, scored as the reference table of the trace header says, ordered by (score desc, length asc, index asc), count consistent with a processed set. A panic inside the library is a recorded outcome (child process, partial trace + abort event). In addition TLC explores the protocol model Nucleo.tla (tick / worker / notify / restart, one action per hook site) exhaustively for small constants with the snapshot invariants; the model's vocabulary is the hook sites and its counterexamples are replayed on the code by scheduler rules.",
+   text="The real Nucleo (UI thread, 0-3 injector threads, 1-4 pool threads, 1-2 columns) runs scenario scripts of reparse / tick(timeout) / restart / push / extend under a controlled scheduler that decides the order of every atomic operation and protocol hook (cfg-gated yield points), so writers are held between index reservation and publication and runs are interleaved with cancellations and rescoring. After every tick the whole snapshot projection is logged (count, pattern, every match with its item read through the safe accessor). TLC consumes each trace with the monitor spec: every match initialised, injected, unique, scored as the reference table of the trace header says, ordered by (score desc, length asc, index asc), count consistent with a processed set. A panic inside the library is a recorded outcome (child process, partial trace + abort event). In addition TLC explores the protocol model Nucleo.tla (tick / worker / notify / restart, one action per hook site) exhaustively for small constants (NucleoMC.tla) with the snapshot invariants, and NucleoConform.tla replays every recorded run against the same actions (every serialised load, hook scalar, decision, dumped snapshot and returned Status must be the model's; unmatched lines are reported as MODEL-DRIFT, which does not decide the exit status); the model's counterexamples are replayed on the code by scheduler rules.",
    note=SCHED_NOTE + " Reference scores come from a fresh MultiPattern/Matcher (C01-C05, C15). A mutant confined to the parallel sort's cancellation needs >4000 matches and is covered by C18, not here."),
  'C07': dict(design='4/C07', technique='TLA+ monitor FromScratch (NucleoTrace.tla) at quiescence, validated by TLC over scheduler-controlled executions',
    text="Every scenario ends in (and several contain intermediate) quiescent points reached by an event loop that only ticks when notified; when the last tick reported running = false TLC requires the logged snapshot to equal the from-scratch result computed in the spec from the header's reference scores over all items whose injection completed on the current stream (count, match set, scores, order via the C06 monitor). Edit histories include append chains (f, fo, foo, foo$, foo$b; a\\, a\\ b), non-append edits, several edits between ticks, negative patterns, restarts, cancelled runs. The protocol model Nucleo.tla is checked exhaustively for the invariant Converged (quiescent and not running implies snapshot = FromScratch).",
